@@ -449,3 +449,39 @@ repr_unit = Contract(
     assumptions=['tag values are header-safe atoms; representative tag set'],
 )
 UNITS.append(repr_unit)
+
+
+# ------------------------------------------------------------------------------ fqSafe against the contract the units above assume
+# "identity on header-safe strings": fqSafe keeps exactly the characters [A-Za-z0-9_-] and drops every other one, character by
+# character (run on the real function: every ASCII character alone and in context, plus a few non-ASCII ones)
+def fqsafe_bounded(tier, seed):
+    import json
+    import os
+    import string
+    from pyvc.contract import import_real
+    fn = import_real(FB, 'fqSafe')
+    keep = set(string.ascii_letters + string.digits + '-_')
+    chars = [chr(i) for i in range(0, 128)] + ['é', 'ß', '中', '٣']
+    n = 0
+    for ch in chars:
+        for s in (ch, 'APKS3-P19_' + ch + 'x', ch * 3):
+            want = ''.join(c for c in s if c in keep)
+            try:
+                got = fn(s)
+            except Exception as e:      # noqa: BLE001
+                got = '%s: %s' % (type(e).__name__, e)
+            n += 1
+            if got != want:
+                out = os.environ.get('VERIF_OUT', '.')
+                os.makedirs(os.path.join(out, 'replays', PROP), exist_ok=True)
+                path = 'replays/%s/fqSafe.json' % PROP
+                json.dump({'property': PROP, 'obligation': '%s/fqSafe[assumed contract]' % PROP,
+                           'replay': {'status': 'confirmed', 'input': s, 'observed': got, 'expected': want}},
+                          open(os.path.join(out, path), 'w'), indent=1)
+                return {'result': 'violation', 'replay': path, 'confirmed': True, 'strings': n}
+    return {'result': 'clean', 'strings': n}
+
+
+from pyvc.units import Bounded      # noqa: E402
+UNITS.append(Bounded(PROP, 'fqSafe[keeps exactly A-Za-z0-9_-; every ASCII character]', fqsafe_bounded,
+                     '132 characters x 3 contexts', 'exhaustive run of the real function against the specification'))
